@@ -83,6 +83,23 @@ CHECKS['C07'] = dict(
     technique='property-based testing (Hypothesis) with validity-predicate '
               'oracles over generated inputs and operation histories')
 
+CHECKS['C08'] = dict(
+    category='exploration', design_ref='DESIGN.md §9 (C08)',
+    text='Statistical exploration: for Hypothesis-generated overlapping / '
+         'face-cut unions and nautilus bounds (serial, pool, after a '
+         'write/read round trip) a two-sample G-test compares bound.sample() '
+         'with exact rejection sampling through contains() over classes '
+         '(multiplicity, first member, quadrant), and a z-test compares '
+         'exp(log_v) with a Monte-Carlo volume using the bound\'s own '
+         'variance; single ellipsoids d=1..8 are checked in closed form '
+         'against the matrix contains() uses. Each test at p<1e-9 with a '
+         'confirmation stage (fresh draws, 4x sample).',
+    note='Detects distribution errors above roughly 1-2 % in class '
+         'probabilities at 20k samples; d=2..4 for the statistical clauses; '
+         'false-alarm probability per case < 1e-17.',
+    technique='property-based testing (Hypothesis) with statistical '
+              'differential oracle (G-test vs rejection sampling, z-test)')
+
 NOT_YET = {}
 
 
